@@ -372,10 +372,6 @@ def rule_cmd(ctx):
     parts = [n for n in walk_no_nested(pc) if isinstance(n, ast.Assign) and isinstance(n.value, ast.Call) and isinstance(n.value.func, ast.Attribute) and n.value.func.attr in ("partition", "split", "rpartition")]
     ok = len(parts) == 1 and parts[0].value.func.attr == "partition" and parts[0].value.args and isinstance(parts[0].value.args[0], ast.Constant) and parts[0].value.args[0].value == " "
     ctx.ob("C06.CMD", pc, "the command line is split with partition(' ') (first space)", ok, "the command line is not split at the first space", construct="parse_command:split")
-    rets = [n for n in walk_no_nested(pc) if isinstance(n, ast.Return) and isinstance(n.value, ast.Tuple) and len(n.value.elts) == 2]
-    verb = deep_expand(p, rets[-1].value.elts[0], pc) if rets else None
-    ok = bool(rets) and isinstance(verb, ast.Call) and is_method_call(verb, "lower")
-    ctx.ob("C06.CMD", pc, "the verb is returned lower-cased (the table keys are lower case)", ok, "parse_command does not return the lower-cased verb", construct="parse_command:verb case")
     table, _ = p.command_table()
     ctx.ob("C06.CMD", pc, "all command-table keys are lower case", all(k == k.lower() for k in table), "command table has non-lower-case keys", construct="table:case")
     # client side: command line = command + END_OF_LINE encoded
